@@ -5,6 +5,8 @@ import Mathlib.Tactic.Positivity
 import Mathlib.Algebra.Order.Ring.Rat
 import Mathlib.Data.Rat.Defs
 import Mathlib.Tactic.Ring
+import Mathlib.Data.List.Forall2
+import Mathlib.Data.List.Chain
 
 /-! # Lemmas for C12 (zero crossings, switched peaks) -/
 namespace EqsigVerif.Model.Switched
@@ -414,5 +416,512 @@ theorem allZc_lt_length (v : List ℚ) (hv : v ≠ []) (keepAdj : Bool) :
 
 theorem zeroCrossings_zero (v : List ℚ) (keepAdj : Bool) : zeroCrossings v keepAdj 0 = allZc v keepAdj := by
   simp [zeroCrossings]
+
+
+/-! ## switched peaks: the grouping loop -/
+
+/-- the groups partition the input in order (any `tol`) -/
+theorem groupsAux_flatten (tol last : ℚ) (cur rest : List (ℕ × ℚ)) :
+    (groupsAux tol last cur rest).flatten = cur ++ rest := by
+  induction rest generalizing last cur with
+  | nil => simp [groupsAux]
+  | cons e rest ih =>
+    obtain ⟨i, pv⟩ := e
+    simp only [groupsAux]
+    split
+    · simp [ih]
+    · simp [ih]
+
+/-- no group is empty (any `tol`) -/
+theorem groupsAux_ne_nil (tol last : ℚ) (cur rest : List (ℕ × ℚ)) (hcur : cur ≠ []) :
+    ∀ g ∈ groupsAux tol last cur rest, g ≠ [] := by
+  induction rest generalizing last cur with
+  | nil => intro g hg; simp [groupsAux] at hg; exact hg ▸ hcur
+  | cons e rest ih =>
+    obtain ⟨i, pv⟩ := e
+    intro g hg
+    simp only [groupsAux] at hg
+    split at hg
+    · simp only [List.mem_cons] at hg
+      rcases hg with rfl | hg
+      · exact hcur
+      · exact ih pv [(i, pv)] (by simp) g hg
+    · exact ih last (cur ++ [(i, pv)]) (by simp) g hg
+
+/-- invariant of an open group for tol = 0: head carries the reference value, the others have its strict sign -/
+def GroupOK (last : ℚ) (g : List (ℕ × ℚ)) : Prop :=
+  ∃ h t, g = h :: t ∧ h.2 = last ∧ ∀ e ∈ t, 0 < e.2 * last
+
+theorem GroupOK.snoc {last : ℚ} {cur : List (ℕ × ℚ)} (hcur : GroupOK last cur) (i : ℕ) (pv : ℚ)
+    (hnot : ¬ pv * last ≤ 0) : GroupOK last (cur ++ [(i, pv)]) := by
+  obtain ⟨h, t, rfl, hh, ht⟩ := hcur
+  refine ⟨h, t ++ [(i, pv)], by simp, hh, ?_⟩
+  intro e he
+  simp only [List.mem_append, List.mem_singleton] at he
+  rcases he with he | rfl
+  · exact ht e he
+  · exact not_le.mp hnot
+
+theorem GroupOK.single (i : ℕ) (pv : ℚ) : GroupOK pv [(i, pv)] := ⟨(i, pv), [], rfl, rfl, by simp⟩
+
+/-- every group produced (tol = 0, fixed seed) is headed by its reference and sign-homogeneous -/
+theorem groupsAux_ok (last : ℚ) (cur rest : List (ℕ × ℚ)) (hcur : GroupOK last cur) :
+    ∀ g ∈ groupsAux 0 last cur rest, ∃ l, GroupOK l g := by
+  induction rest generalizing last cur with
+  | nil => intro g hg; simp [groupsAux] at hg; exact ⟨last, hg ▸ hcur⟩
+  | cons e rest ih =>
+    obtain ⟨i, pv⟩ := e
+    intro g hg
+    simp only [groupsAux, zero_mul, add_zero] at hg
+    split at hg
+    · simp only [List.mem_cons] at hg
+      rcases hg with rfl | hg
+      · exact ⟨last, hcur⟩
+      · exact ih pv [(i, pv)] (GroupOK.single i pv) g hg
+    · rename_i hnot
+      exact ih last (cur ++ [(i, pv)]) (hcur.snoc i pv hnot) g hg
+
+/-- the first group produced extends the open group and keeps its reference -/
+theorem groupsAux_head (last : ℚ) (cur rest : List (ℕ × ℚ)) (hcur : GroupOK last cur) :
+    ∃ g gs, groupsAux 0 last cur rest = g :: gs ∧ GroupOK last g := by
+  induction rest generalizing cur with
+  | nil => exact ⟨cur, [], by simp [groupsAux], hcur⟩
+  | cons e rest ih =>
+    obtain ⟨i, pv⟩ := e
+    simp only [groupsAux, zero_mul, add_zero]
+    split
+    · exact ⟨cur, _, rfl, hcur⟩
+    · rename_i hnot
+      exact ih _ (hcur.snoc i pv hnot)
+
+/-- consecutive groups (tol = 0): references of neighbouring groups never share a strict sign -/
+theorem groupsAux_chain (last : ℚ) (cur rest : List (ℕ × ℚ)) (hcur : GroupOK last cur) :
+    List.IsChain (fun g g' => ∃ l l', GroupOK l g ∧ GroupOK l' g' ∧ l' * l ≤ 0) (groupsAux 0 last cur rest) := by
+  induction rest generalizing last cur with
+  | nil => simp [groupsAux]
+  | cons e rest ih =>
+    obtain ⟨i, pv⟩ := e
+    simp only [groupsAux, zero_mul, add_zero]
+    split
+    · rename_i hclose
+      have hnew : GroupOK pv [(i, pv)] := GroupOK.single i pv
+      obtain ⟨g, gs, hg, hgok⟩ := groupsAux_head pv [(i, pv)] rest hnew
+      have hch := ih pv [(i, pv)] hnew
+      rw [hg] at hch ⊢
+      exact List.IsChain.cons_cons ⟨last, pv, hcur, hgok, hclose⟩ hch
+    · rename_i hnot
+      exact ih _ _ (hcur.snoc i pv hnot)
+
+/-- two values with the signs of two references whose product is ≤ 0 have product ≤ 0 -/
+theorem sign_transfer (l l' e e' : ℚ) (hl : l' * l ≤ 0) (he : e = l ∨ 0 < e * l) (he' : e' = l' ∨ 0 < e' * l') :
+    e * e' ≤ 0 := by
+  rcases he with rfl | he <;> rcases he' with rfl | he'
+  · linarith [mul_comm e e']
+  · by_contra hcon
+    have hcon := not_le.1 hcon
+    have : 0 < (e * e') * (e' * l') := mul_pos hcon he'
+    have h2 : (e * e') * (e' * l') = e' ^ 2 * (l' * e) := by ring
+    rw [h2] at this
+    have h3 : 0 ≤ e' ^ 2 := by positivity
+    nlinarith
+  · by_contra hcon
+    have hcon := not_le.1 hcon
+    have : 0 < (e * e') * (e * l) := mul_pos hcon he
+    have h2 : (e * e') * (e * l) = e ^ 2 * (e' * l) := by ring
+    rw [h2] at this
+    have h3 : 0 ≤ e ^ 2 := by positivity
+    nlinarith
+  · by_contra hcon
+    have hcon := not_le.1 hcon
+    have h1 : 0 < (e * l) * (e' * l') := mul_pos he he'
+    have h2 : (e * l) * (e' * l') = (e * e') * (l' * l) := by ring
+    rw [h2] at h1
+    nlinarith
+
+theorem GroupOK.mem {l : ℚ} {g : List (ℕ × ℚ)} (h : GroupOK l g) : ∀ e ∈ g, e.2 = l ∨ 0 < e.2 * l := by
+  obtain ⟨hd, t, rfl, hh, ht⟩ := h
+  intro e he
+  simp only [List.mem_cons] at he
+  rcases he with rfl | he
+  · exact Or.inl hh
+  · exact Or.inr (ht e he)
+
+/-- a group is a single zero-valued entry or a run of one strict sign -/
+theorem GroupOK.classify {l : ℚ} {g : List (ℕ × ℚ)} (h : GroupOK l g) :
+    (∃ p, g = [(p, 0)]) ∨ (∀ e ∈ g, 0 < e.2) ∨ (∀ e ∈ g, e.2 < 0) := by
+  have hm := h.mem
+  obtain ⟨hd, t, rfl, hh, ht⟩ := h
+  rcases lt_trichotomy l 0 with hl | hl | hl
+  · right; right
+    intro e he
+    rcases hm e he with h1 | h1
+    · rw [h1]; exact hl
+    · by_contra hc
+      have hc := not_lt.1 hc
+      nlinarith
+  · left
+    subst hl
+    cases t with
+    | nil => exact ⟨hd.1, by rw [← hh]⟩
+    | cons e t => have := ht e (by simp); simp at this
+  · right; left
+    intro e he
+    rcases hm e he with h1 | h1
+    · rw [h1]; exact hl
+    · by_contra hc
+      have hc := not_lt.1 hc
+      nlinarith
+
+
+/-! ## `np.argmax` (first maximum) -/
+
+theorem argmaxFrom_spec (bi : ℕ) (bv : ℚ) (i : ℕ) (l : List ℚ) :
+    (Np.argmaxFrom bi bv i l = bi ∧ ∀ x ∈ l, x ≤ bv) ∨
+    (∃ k, ∃ hk : k < l.length, Np.argmaxFrom bi bv i l = i + k ∧ bv < l[k] ∧
+      (∀ j (hj : j < l.length), l[j] ≤ l[k]) ∧ ∀ j (hj : j < k), l[j] < l[k]) := by
+  induction l generalizing bi bv i with
+  | nil => left; simp [Np.argmaxFrom]
+  | cons x xs ih =>
+    simp only [Np.argmaxFrom]
+    split
+    · rename_i hlt
+      right
+      rcases ih i x (i+1) with ⟨h1, h2⟩ | ⟨k, hk, h1, h2, h3, h4⟩
+      · refine ⟨0, by simp, by simpa using h1, by simpa using hlt, ?_, by simp⟩
+        intro j hj
+        cases j with
+        | zero => simp
+        | succ j => simpa using h2 _ (List.getElem_mem (by simpa using hj))
+      · refine ⟨k+1, by simpa using hk, by rw [h1]; omega, by simpa using lt_trans hlt h2, ?_, ?_⟩
+        · intro j hj
+          cases j with
+          | zero => simpa using le_of_lt h2
+          | succ j => simpa using h3 j (by simpa using hj)
+        · intro j hj
+          cases j with
+          | zero => simpa using h2
+          | succ j => simpa using h4 j (by omega)
+    · rename_i hnlt
+      have hle : x ≤ bv := not_lt.1 hnlt
+      rcases ih bi bv (i+1) with ⟨h1, h2⟩ | ⟨k, hk, h1, h2, h3, h4⟩
+      · left
+        refine ⟨h1, ?_⟩
+        intro y hy
+        simp only [List.mem_cons] at hy
+        rcases hy with rfl | hy
+        · exact hle
+        · exact h2 y hy
+      · right
+        refine ⟨k+1, by simpa using hk, by rw [h1]; omega, by simpa using h2, ?_, ?_⟩
+        · intro j hj
+          cases j with
+          | zero => simpa using le_of_lt (lt_of_le_of_lt hle h2)
+          | succ j => simpa using h3 j (by simpa using hj)
+        · intro j hj
+          cases j with
+          | zero => simpa using lt_of_le_of_lt hle h2
+          | succ j => simpa using h4 j (by omega)
+
+/-- `np.argmax` returns the first position of the maximum -/
+theorem argmax_spec (l : List ℚ) (hl : l ≠ []) :
+    ∃ k, ∃ hk : k < l.length, Np.argmax l = k ∧ (∀ j (hj : j < l.length), l[j] ≤ l[k]) ∧
+      ∀ j (hj : j < k), l[j] < l[k] := by
+  cases l with
+  | nil => exact absurd rfl hl
+  | cons x xs =>
+    simp only [Np.argmax]
+    rcases argmaxFrom_spec 0 x 1 xs with ⟨h1, h2⟩ | ⟨k, hk, h1, h2, h3, h4⟩
+    · refine ⟨0, by simp, h1, ?_, by simp⟩
+      intro j hj
+      cases j with
+      | zero => simp
+      | succ j => simpa using h2 _ (List.getElem_mem (by simpa using hj))
+    · refine ⟨k + 1, by simpa using hk, by omega, ?_, ?_⟩
+      · intro j hj
+        cases j with
+        | zero => simpa using le_of_lt h2
+        | succ j => simpa using h3 j (by simpa using hj)
+      · intro j hj
+        cases j with
+        | zero => simpa using h2
+        | succ j => simpa using h4 j (by omega)
+
+/-! ## the reported member of a group -/
+
+/-- `r` is the index carried by the first member of `g` with the largest `|value|` -/
+def IsFirstArgmaxAbs (g : List (ℕ × ℚ)) (r : ℕ) : Prop :=
+  ∃ k, ∃ hk : k < g.length, r = g[k].1 ∧ (∀ j (hj : j < g.length), |g[j].2| ≤ |g[k].2|) ∧
+    ∀ j (hj : j < k), |g[j].2| < |g[k].2|
+
+theorem report_spec (g : List (ℕ × ℚ)) (hg : g ≠ []) : IsFirstArgmaxAbs g (report g) := by
+  have hne : Np.absL (g.map (·.2)) ≠ [] := by simpa [Np.absL] using hg
+  obtain ⟨k, hk, hk0, h1, h2⟩ := argmax_spec _ hne
+  have hlen : (Np.absL (g.map (·.2))).length = g.length := by simp [Np.absL]
+  have hget : ∀ j (hj : j < g.length), (Np.absL (g.map (·.2)))[j]'(by rw [hlen]; exact hj) = |g[j].2| := by
+    intro j hj; simp [Np.absL, Np.absv_eq_abs]
+  have hkg : k < g.length := by rw [← hlen]; exact hk
+  refine ⟨k, hkg, ?_, ?_, ?_⟩
+  · unfold report
+    rw [hk0, getD_eq_getElem' _ _ _ (by simpa using hkg)]
+    simp
+  · intro j hj
+    rw [← hget j hj, ← hget k hkg]
+    exact h1 j _
+  · intro j hj
+    rw [← hget j (by omega), ← hget k hkg]
+    exact h2 j hj
+
+
+/-! ## from positions in the peak arrays to peak indices -/
+
+/-- relabel the index component of the members of a group -/
+def relabel (f : ℕ → ℕ) (g : List (ℕ × ℚ)) : List (ℕ × ℚ) := g.map (fun e => (f e.1, e.2))
+
+theorem groupsAux_relabel (f : ℕ → ℕ) (tol last : ℚ) (cur rest : List (ℕ × ℚ)) :
+    groupsAux tol last (relabel f cur) (relabel f rest) = (groupsAux tol last cur rest).map (relabel f) := by
+  induction rest generalizing last cur with
+  | nil => simp [groupsAux, relabel]
+  | cons e rest ih =>
+    obtain ⟨i, pv⟩ := e
+    have h1 : relabel f ((i, pv) :: rest) = (f i, pv) :: relabel f rest := rfl
+    rw [h1]
+    simp only [groupsAux]
+    split
+    · have := ih pv [(i, pv)]
+      simp only [List.map_cons]
+      rw [← this]; rfl
+    · have := ih last (cur ++ [(i, pv)])
+      rw [← this]
+      simp [relabel]
+
+theorem groups_relabel (f : ℕ → ℕ) (tol : ℚ) (l : List (ℕ × ℚ)) :
+    groups tol id (relabel f l) = (groups tol id l).map (relabel f) := by
+  cases l with
+  | nil => rfl
+  | cons e rest =>
+    obtain ⟨i, pv⟩ := e
+    exact groupsAux_relabel f tol pv [(i, pv)] rest
+
+theorem groups_ne_nil (tol : ℚ) (l : List (ℕ × ℚ)) : ∀ g ∈ groups tol id l, g ≠ [] := by
+  cases l with
+  | nil => simp [groups]
+  | cons e rest =>
+    obtain ⟨i, pv⟩ := e
+    exact groupsAux_ne_nil tol pv [(i, id pv)] rest (by simp)
+
+theorem groups_flatten (tol : ℚ) (l : List (ℕ × ℚ)) : (groups tol id l).flatten = l := by
+  cases l with
+  | nil => simp [groups]
+  | cons e rest =>
+    obtain ⟨i, pv⟩ := e
+    simp only [groups, groupsAux_flatten, id]
+    rfl
+
+theorem report_relabel (f : ℕ → ℕ) (g : List (ℕ × ℚ)) (hg : g ≠ []) : report (relabel f g) = f (report g) := by
+  have hne : Np.absL (g.map (·.2)) ≠ [] := by simpa [Np.absL] using hg
+  obtain ⟨k, hk, hk0, _, _⟩ := argmax_spec _ hne
+  have hkg : k < g.length := by simpa [Np.absL] using hk
+  have h2 : (relabel f g).map (·.2) = g.map (·.2) := by simp [relabel]
+  have h1 : (relabel f g).map (·.1) = (g.map (·.1)).map f := by simp [relabel]
+  unfold report
+  rw [h2, h1, hk0, getD_eq_getElem' _ _ _ (by simpa using hkg), getD_eq_getElem' _ _ _ (by simpa using hkg)]
+  simp
+
+/-- the peaks as `(index, value)` -/
+def peakItems (v : List ℚ) : List (ℕ × ℚ) := (Peaks.peaks v).map (fun p => (p, v.getD p 0))
+
+theorem relabel_peakPosItems (v : List ℚ) (pk : List ℕ) :
+    relabel (fun k => pk.getD k 0) (peakPosItems v pk) = pk.map (fun p => (p, v.getD p 0)) := by
+  apply List.ext_getElem
+  · simp [relabel, peakPosItems]
+  · intro i h1 h2
+    have hi : i < pk.length := by simpa using h2
+    simp [relabel, peakPosItems, hi]
+
+/-- the groups of the switched-peak loop, over `(peak index, peak value)` -/
+def switchedGroups (v : List ℚ) (tol : ℚ) : List (List (ℕ × ℚ)) := groups tol id (peakItems v)
+
+/-- the model's result is the list of reported members of `switchedGroups` -/
+theorem switchedPeaks_eq (v : List ℚ) (tol : ℚ) :
+    switchedPeaks v tol = (switchedGroups v tol).map report := by
+  unfold switchedPeaks newPeakPositions switchedGroups peakItems
+  rw [← relabel_peakPosItems v (Peaks.peaks v), groups_relabel, List.map_map, List.map_map]
+  apply List.map_congr_left
+  intro g hg
+  simp only [Function.comp]
+  rw [report_relabel _ g (groups_ne_nil _ _ g hg)]
+
+theorem peaks_ne_nil (v : List ℚ) : Peaks.peaks v ≠ [] := by
+  simp [Peaks.peaks, Peaks.peaksCleaned]
+
+
+/-! ## shape of the switched-peak result -/
+
+theorem map_pick_sublist {α β : Type} (gs : List (List α)) (f : α → β) (pick : List α → β)
+    (h : ∀ g ∈ gs, pick g ∈ g.map f) : (gs.map pick).Sublist (gs.flatten.map f) := by
+  induction gs with
+  | nil => simp
+  | cons g gs ih =>
+    simp only [List.map_cons, List.flatten_cons, List.map_append]
+    have h1 : [pick g].Sublist (g.map f) := List.singleton_sublist.2 (h g (by simp))
+    exact h1.append (ih (fun g' hg' => h g' (by simp [hg'])))
+
+theorem IsFirstArgmaxAbs.mem {g : List (ℕ × ℚ)} {r : ℕ} (h : IsFirstArgmaxAbs g r) :
+    ∃ e ∈ g, e.1 = r ∧ ∀ e' ∈ g, |e'.2| ≤ |e.2| := by
+  obtain ⟨k, hk, h1, h2, _⟩ := h
+  refine ⟨g[k], List.getElem_mem hk, h1.symm, ?_⟩
+  intro e' he'
+  obtain ⟨j, hj, rfl⟩ := List.getElem_of_mem he'
+  exact h2 j hj
+
+theorem report_mem (g : List (ℕ × ℚ)) (hg : g ≠ []) : report g ∈ g.map (·.1) := by
+  obtain ⟨e, he, h1, _⟩ := (report_spec g hg).mem
+  exact List.mem_map.2 ⟨e, he, h1⟩
+
+theorem peakItems_map_fst (v : List ℚ) : (peakItems v).map (·.1) = Peaks.peaks v := by
+  unfold peakItems
+  rw [List.map_map]
+  exact List.map_id _
+
+theorem switchedGroups_flatten (v : List ℚ) (tol : ℚ) : (switchedGroups v tol).flatten = peakItems v :=
+  groups_flatten tol _
+
+/-- for every `tol` the result is a sublist of the peaks -/
+theorem switchedPeaks_sublist_peaks (v : List ℚ) (tol : ℚ) : (switchedPeaks v tol).Sublist (Peaks.peaks v) := by
+  rw [switchedPeaks_eq, ← peakItems_map_fst, ← switchedGroups_flatten v tol]
+  exact map_pick_sublist _ _ _ (fun g hg => report_mem g (groups_ne_nil _ _ g hg))
+
+/-- members of the groups carry the value of the series at their index -/
+theorem switchedGroups_value (v : List ℚ) (tol : ℚ) :
+    ∀ g ∈ switchedGroups v tol, ∀ e ∈ g, e.2 = v.getD e.1 0 := by
+  intro g hg e he
+  have : e ∈ peakItems v := by
+    rw [← switchedGroups_flatten v tol]; exact List.mem_flatten.2 ⟨g, hg, he⟩
+  obtain ⟨p, _, rfl⟩ := List.mem_map.1 this
+  rfl
+
+theorem groups_ok (l : List (ℕ × ℚ)) : ∀ g ∈ groups 0 id l, ∃ r, GroupOK r g := by
+  cases l with
+  | nil => simp [groups]
+  | cons e rest =>
+    obtain ⟨i, pv⟩ := e
+    exact groupsAux_ok pv [(i, pv)] rest (GroupOK.single i pv)
+
+theorem groups_chain (l : List (ℕ × ℚ)) :
+    List.IsChain (fun g g' => ∃ r r', GroupOK r g ∧ GroupOK r' g' ∧ r' * r ≤ 0) (groups 0 id l) := by
+  cases l with
+  | nil => simp [groups]
+  | cons e rest =>
+    obtain ⟨i, pv⟩ := e
+    exact groupsAux_chain pv [(i, pv)] rest (GroupOK.single i pv)
+
+/-- members of neighbouring groups never share a strict sign -/
+theorem groups_chain_members (l : List (ℕ × ℚ)) :
+    List.IsChain (fun g g' => ∀ e ∈ g, ∀ e' ∈ g', e.2 * e'.2 ≤ 0) (groups 0 id l) := by
+  refine (groups_chain l).imp ?_
+  rintro g g' ⟨r, r', hg, hg', hr⟩ e he e' he'
+  exact sign_transfer r r' e.2 e'.2 hr (hg.mem e he) (hg'.mem e' he')
+
+theorem isChain_map_of_mem {α β : Type} (R : α → α → Prop) (S : β → β → Prop) (f : α → β) (l : List α)
+    (h : ∀ a ∈ l, ∀ b ∈ l, R a b → S (f a) (f b)) (hc : l.IsChain R) : (l.map f).IsChain S := by
+  induction l with
+  | nil => simp
+  | cons a t ih =>
+    cases t with
+    | nil => simp
+    | cons b t =>
+      rw [List.isChain_cons_cons] at hc
+      simp only [List.map_cons]
+      rw [List.isChain_cons_cons]
+      refine ⟨h a (by simp) b (by simp) hc.1, ?_⟩
+      have := ih (fun x hx y hy => h x (by simp [hx]) y (by simp [hy])) hc.2
+      simpa using this
+
+/-- consecutive reported values never share a strict sign (`tol = 0`) -/
+theorem switchedPeaks_chain (v : List ℚ) :
+    (switchedPeaks v 0).IsChain (fun a b => v.getD a 0 * v.getD b 0 ≤ 0) := by
+  rw [switchedPeaks_eq]
+  refine isChain_map_of_mem _ _ report _ ?_ (groups_chain_members (peakItems v))
+  intro g hg g' hg' hR
+  obtain ⟨e, he, h1, _⟩ := (report_spec g (groups_ne_nil _ _ g hg)).mem
+  obtain ⟨e', he', h1', _⟩ := (report_spec g' (groups_ne_nil _ _ g' hg')).mem
+  have := hR e he e' he'
+  rw [switchedGroups_value v 0 g hg e he, switchedGroups_value v 0 g' hg' e' he', h1, h1'] at this
+  exact this
+
+
+/-! ## global maximum -/
+
+theorem exists_max_of_ne_nil {α : Type} (l : List α) (f : α → ℚ) (hl : l ≠ []) :
+    ∃ a ∈ l, ∀ b ∈ l, f b ≤ f a := by
+  induction l with
+  | nil => exact absurd rfl hl
+  | cons a t ih =>
+    cases t with
+    | nil => exact ⟨a, by simp, by simp⟩
+    | cons b t =>
+      obtain ⟨m, hm, hmax⟩ := ih (by simp)
+      by_cases h : f m ≤ f a
+      · refine ⟨a, by simp, ?_⟩
+        intro c hc
+        rcases List.mem_cons.1 hc with rfl | hc
+        · exact le_refl _
+        · exact le_trans (hmax c hc) h
+      · refine ⟨m, List.mem_cons_of_mem _ hm, ?_⟩
+        intro c hc
+        rcases List.mem_cons.1 hc with rfl | hc
+        · exact le_of_lt (not_le.1 h)
+        · exact hmax c hc
+
+/-- every peak is dominated in `|·|` by a reported index (any `tol`) -/
+theorem peak_le_reported (v : List ℚ) (tol : ℚ) (p : ℕ) (hp : p ∈ Peaks.peaks v) :
+    ∃ r ∈ switchedPeaks v tol, |v.getD p 0| ≤ |v.getD r 0| := by
+  have hmem : (p, v.getD p 0) ∈ peakItems v := List.mem_map.2 ⟨p, hp, rfl⟩
+  rw [← switchedGroups_flatten v tol] at hmem
+  obtain ⟨g, hg, hpg⟩ := List.mem_flatten.1 hmem
+  obtain ⟨e, he, h1, h2⟩ := (report_spec g (groups_ne_nil _ _ g hg)).mem
+  refine ⟨report g, ?_, ?_⟩
+  · rw [switchedPeaks_eq]; exact List.mem_map.2 ⟨g, hg, rfl⟩
+  · have := h2 _ hpg
+    rw [switchedGroups_value v tol g hg e he, h1] at this
+    exact this
+
+/-! ## `np.delete` and the `tol > 0` zero-crossing result -/
+
+theorem npDeleteFrom_sublist (rem : List ℕ) (i : ℕ) (l : List ℕ) : (npDeleteFrom rem i l).Sublist l := by
+  induction l generalizing i with
+  | nil => simp [npDeleteFrom]
+  | cons x xs ih =>
+    simp only [npDeleteFrom]
+    split
+    · exact (ih _).cons _
+    · exact (ih _).cons_cons _
+
+theorem zeroCrossings_sublist (v : List ℚ) (keepAdj : Bool) (tol : ℚ) :
+    (zeroCrossings v keepAdj tol).Sublist (zeroCrossings v keepAdj 0) := by
+  rw [zeroCrossings_zero]
+  unfold zeroCrossings
+  simp only
+  split
+  · exact npDeleteFrom_sublist _ _ _
+  · exact List.Sublist.refl _
+
+
+/-! ## the `none` branch of `tolRemStep` (`max([])`, a `ValueError` in Python) is unreachable -/
+
+theorem tolRemStep_slice_ne_nil (v : List ℚ) (hv : v ≠ []) (keepAdj : Bool) (k : ℕ)
+    (hk : k < (allZc v keepAdj).length - 1) :
+    Np.maxL? (Np.absL (Np.slice v ((allZc v keepAdj).getD k 0) ((allZc v keepAdj).getD (k+1) 0))) ≠ none := by
+  have hk0 : k < (allZc v keepAdj).length := by omega
+  have hk1 : k + 1 < (allZc v keepAdj).length := by omega
+  have hlt : (allZc v keepAdj)[k] < (allZc v keepAdj)[k+1] :=
+    (List.pairwise_iff_getElem.1 (allZc_pairwise v keepAdj)) k (k+1) hk0 hk1 (by omega)
+  have hlen : (allZc v keepAdj)[k+1] < v.length := allZc_lt_length v hv keepAdj _ (List.getElem_mem hk1)
+  rw [getD_eq_getElem' _ _ _ hk0, getD_eq_getElem' _ _ _ hk1]
+  have : (Np.slice v (allZc v keepAdj)[k] (allZc v keepAdj)[k+1]).length ≠ 0 := by
+    simp only [Np.slice, List.length_drop, List.length_take]; omega
+  cases hs : Np.slice v (allZc v keepAdj)[k] (allZc v keepAdj)[k+1] with
+  | nil => rw [hs] at this; simp at this
+  | cons x xs => simp [Np.absL, Np.maxL?]
 
 end EqsigVerif.Model.Switched
